@@ -411,6 +411,11 @@ func fnSetBit(ctx *cmdContext, args map[string]any) (output respValue, err error
 	}
 
 	result := ctx.dsc.bitfieldWrite(keyName, []*bitfieldOp{op})
+	if errText, isError := result.data.(respErrorString); isError {
+		// wrong type, or offset out of range
+		output.data = errText
+		return
+	}
 
 	// result is an array of 1; convert it to a single output value
 	ra := result.toNative().([]any)
